@@ -6,6 +6,7 @@ import (
 	"flag"
 	"fmt"
 	"os"
+	"reflect"
 	"strings"
 	"sync"
 	"sync/atomic"
@@ -27,6 +28,7 @@ func concParallel(args []string) error {
 	g := fs.Int("goroutines", 16, "goroutines")
 	rounds := fs.Int("rounds", 1, "how many times the parallel phase is repeated")
 	rereg := fs.Bool("rereg", false, "before every round the application registers again, with its pinned type, one key of every discriminator table (a start-up step: no goroutine is running); rounds whose events equal those of the first round are not written")
+	hammer := fs.Int("hammer", 0, "after the rounds: every history is executed N times by ALL goroutines at the same time (own machines); only an execution whose events differ from the first parallel round's is written")
 	fs.Parse(args)
 	fin, err := os.Open(*in)
 	if err != nil {
@@ -169,6 +171,62 @@ func concParallel(args []string) error {
 			continue
 		}
 		parRounds = append(parRounds, results)
+	}
+	// Phase 1b (hammer): one history at a time, by all goroutines at once, N times each. Contention inside ONE primitive or
+	// message type (a free list that runs dry, a try-lock that fails, a cache line shared by callers with different
+	// parameters) needs several callers in the same few instructions; histories spread over a work queue rarely meet there.
+	// Only executions that differ from the first round's are kept - they are written as a further round and judged like it.
+	if *hammer > 0 && len(parRounds) > 0 {
+		sameEvs := func(a, b []vh.Event) bool {
+			if len(a) != len(b) {
+				return false
+			}
+			for j := range a {
+				x, y := a[j], b[j]
+				if x.Res != y.Res || !reflect.DeepEqual(x.Post, y.Post) || !reflect.DeepEqual(x.VPost, y.VPost) || !reflect.DeepEqual(x.Ret, y.Ret) {
+					return false
+				}
+			}
+			return true
+		}
+		extra := make([][]vh.Event, len(hists))
+		found := 0
+		for i := range hists {
+			ref := parRounds[0][i]
+			var mu sync.Mutex
+			var wg sync.WaitGroup
+			start := make(chan struct{})
+			for k := 0; k < *g; k++ {
+				wg.Add(1)
+				go func(k int) {
+					defer wg.Done()
+					<-start
+					for n := 0; n < *hammer; n++ {
+						evs, err := runHist(len(hists)*(*rounds+2)+i+1, hists[i])
+						if err != nil {
+							return
+						}
+						if !sameEvs(ref, evs) {
+							mu.Lock()
+							if extra[i] == nil {
+								extra[i] = evs
+								found++
+							}
+							mu.Unlock()
+							return
+						}
+					}
+				}(k)
+			}
+			close(start)
+			wg.Wait()
+			if found >= 8 {
+				break
+			}
+		}
+		if found > 0 {
+			parRounds = append(parRounds, extra)
+		}
 	}
 	// Phase 2: alone, one after the other. Written first, so that a parallel event can name its
 	// twin by line number.
